@@ -462,7 +462,7 @@ impl C19 {
     }
 
     /// arbitrary lax term with var-labelled hyperedges of any arity and label mix
-    fn arbitrary_term(&self, r: &mut Rng) -> PLax<u32, VOp> {
+    pub fn arbitrary_term(&self, r: &mut Rng) -> PLax<u32, VOp> {
         let nlab = r.range(1, 3);
         let n = r.range(1, 6);
         let w: Vec<u32> = (0..n).map(|_| r.below(nlab) as u32).collect();
